@@ -230,6 +230,14 @@ pub fn search(tier: &str, seed: u64, s: &mut Search) {
             let doc = crate::c03::cycle_doc(tys, lks, i % 2 == 0);
             run(&mut wk, s, "reference-graph", doc.as_bytes(), 96.0);
         }
+        // a tail that leads into a cycle (the entry element is not part of it): every walk over a link chain must
+        // remember all it has seen, not only where it started
+        let tails: Vec<_> = crate::c03::enumerate_cycles(3).into_iter().filter(|(t, _)| t.iter().all(|x| *x == t[0])).collect();
+        for (i, (tys, lks)) in tails.iter().enumerate().take(if tier == "thorough" { 400 } else { 80 }) {
+            if let Some(doc) = crate::c03::tail_cycle_doc(tys, lks, (i % 2) as u32) {
+                run(&mut wk, s, "reference-graph-tail", doc.as_bytes(), 96.0);
+            }
+        }
         // self references through every paint / effect attribute, on the definition's own content
         for attr in ["fill", "stroke", "clip-path", "mask", "filter", "marker-start", "marker-mid", "marker-end"] {
             for with_fill in [true, false] {
